@@ -116,9 +116,10 @@ class Contract:
                  allocates=False, loops=None, returns='none', axioms=(), hints=None,
                  role=False, pure=False, noraise_ok=True, ghost=None, cases=None, free_requires=(),
                  known=None, defaults=None, ghost_init=None, varkw=None, ghost_kinds=None,
-                 call_asserts=None, call_ghost=None, call_effects=None, target=None):
+                 call_asserts=None, call_ghost=None, call_effects=None, target=None, closure=None):
         self.name = name
         self.target = target or name    # qualified name of the code this contract is checked against
+        self.closure = closure or {}    # free variables of a lambda / nested function: name -> kind
         self.params = params            # ordered dict name -> kind
         self.requires = list(requires)
         self.free_requires = list(free_requires)   # assumed on entry, not asserted at call sites
@@ -206,7 +207,7 @@ class Engine:
 
     # ============================================================ heap
     SORTS = {'int': T.I, 'bool': T.B, 'bytes': T.Bytes, 'str': T.S, 'dyn': T.Val,
-             'list': T.I, 'struct': T.SF, 'rx': T.RX, 'kw': T.Kw, 'conf': T.Conf, 'meth': T.S, 'cls': T.I}
+             'list': T.I, 'struct': T.SF, 'rx': T.RX, 'kw': T.Kw, 'conf': T.Conf, 'meth': T.S, 'cls': T.I, 'varargs': T.I}
 
     def kind_sort(self, kind):
         if kind.startswith('ref:') or kind.startswith('func:'):
@@ -236,6 +237,9 @@ class Engine:
             return VConf(z)
         if kind == 'cls':
             return VClassSym(z)
+        if kind == 'varargs':       # *vargs: an opaque tuple that is only passed along
+            v = VSeqAbs(z3.If(z >= 0, z, 0), lambda i: VDyn(z3.Function('vararg', T.I, T.I, T.Val)(z, i)), 'opaque-varargs')
+            return v
         if kind.startswith('ref:'):
             return VRef(z, kind[4:])
         if kind.startswith('func:'):
@@ -762,7 +766,9 @@ class Engine:
                 n = self.llen(st, base.z)
                 l, h = self.clamp_slice(zlo, zhi, n)
                 arr = z3.Select(st.heap['lat'], base.z)
-                return VSeqAbs(h - l, lambda i, arr=arr, l=l: VDyn(z3.Select(arr, l + i)), 'listslice'), raises
+                v = VSeqAbs(h - l, lambda i, arr=arr, l=l: VDyn(z3.Select(arr, l + i)), 'listslice')
+                v.src = (arr, l, h - l, 'fwd')
+                return v, raises
             if isinstance(base, VSeqAbs):
                 l, h = self.clamp_slice(zlo, zhi, base.n)
                 return VSeqAbs(h - l, lambda i, b=base, l=l: b.elem(l + i), base.tag), raises
